@@ -26,7 +26,9 @@ BOUNDS = {"resolve": "<=3 ranks, <=2 methods per rank"}
 def tasks(tier):
     from contracts import recode_c
 
-    return [dict(name="recode.tail", build=recode_c.t_recode_tail, mode="U")] + _tm.mro_unbounded_tasks()[:2] + _tm.resolve_unbounded_tasks() + _tm.mtm_missing_tasks(("plain", "coded", "coded_nullary")) + _tm.resolve_tasks(tier) + [t for t in _tm.e2e_tasks(["complete"], "quick") if t["name"].endswith((",p]", "N=2,p/p]", "N=2,p/k]"))]
+    from . import _core
+
+    return _core.next_resolve_tasks() + [dict(name="recode.tail", build=recode_c.t_recode_tail, mode="U")] + _tm.mro_unbounded_tasks()[:2] + _tm.resolve_unbounded_tasks() + _tm.mtm_missing_tasks(("plain", "coded", "coded_nullary")) + _tm.resolve_tasks(tier) + [t for t in _tm.e2e_tasks(["complete"], "quick") if t["name"].endswith((",p]", "N=2,p/p]", "N=2,p/k]"))]
 
 
 def conformance(tier):
